@@ -1,35 +1,446 @@
-(* C14 — Running programs stay interruptible and stop cleanly (first instalment;
-   the trace-prefix theorems are in SemStop.v when present). *)
-From Coq Require Import List.
-From EvyV Require Import Base Ast Sem SemBasics.
+(* C14 — Running programs stay interruptible and stop cleanly.
+   Property theorems only; every proof is [exact <lemma of SemStop>].
 
-(* once the stop flag is set, Eval evaluates nothing more: it reports "stopped"
-   and the only effect that may follow is the test summary *)
-Theorem C14_stopped_run_evaluates_nothing : forall n P s,
-  st_stopped s = true -> run_program n P s = (OErr EStopped, test_report s).
-Proof. exact run_program_stopped. Qed.
-Print Assumptions C14_stopped_run_evaluates_nothing.
+   Vocabulary (SemStop.v):
+   - [set_stop o s]       : s with the platform's plan st_stop_at := o
+                            (Some k = raise the stop flag during yield number k; None = never)
+   - [suffix old new]     : new = d ++ old (traces are newest first)
+   - [prefix l1 l2]       : l2 = l1 ++ d   (chronological order)
+   - [atom m]             : m neither reads nor writes st_yields / st_stop_at / st_stopped /
+                            st_check_after_yield, and only extends st_trace
+   - [Built m]            : m is built from atoms and [tick] (the prologue of Evaluator.eval) by bindM
+   All theorems about st_check_after_yield = true concern the corrected order of the
+   stop test (after fix 654c89e); the [_refuted_old] theorems are witnesses for the
+   old order (st_check_after_yield = false). *)
+From Coq Require Import ZArith NArith List String Bool Lia Arith.
+From EvyV Require Import Base Num Ast Omap Sem SemStop.
+Import ListNotations.
+Local Open Scope nat_scope.
 
-Theorem C14_stopped_statement_evaluates_nothing : forall n P e x s,
-  st_stopped s = true -> exec_stmt (S n) P e x s = (Er EStopped, s).
-Proof. exact exec_stmt_stopped. Qed.
-Print Assumptions C14_stopped_statement_evaluates_nothing.
+(* ================= structure of the evaluator ================= *)
 
-Theorem C14_stopped_expression_evaluates_nothing : forall n P e x s,
-  st_stopped s = true -> eval_expr (S n) P e x s = (Er EStopped, s).
-Proof. exact eval_expr_stopped. Qed.
-Print Assumptions C14_stopped_expression_evaluates_nothing.
+(* all nine mutually recursive evaluator functions, for every fuel, program and
+   argument, are built from stop-independent atoms and eval prologues *)
+Theorem C14_evaluator_is_built : forall n,
+  (forall P e x, Built (eval_expr n P e x)) /\
+  (forall P e l, Built (eval_exprs n P e l)) /\
+  (forall P e name args, Built (eval_call n P e name args)) /\
+  (forall P e s, Built (exec_stmt n P e s)) /\
+  (forall P e l, Built (exec_stmts n P e l)) /\
+  (forall P e l, Built (exec_block n P e l)) /\
+  (forall P e c body, Built (exec_cond n P e c body)) /\
+  (forall P e c body, Built (exec_while n P e c body)) /\
+  (forall P e var rg body, Built (exec_for n P e var rg body)).
+Proof. exact built_all. Qed.
+Print Assumptions C14_evaluator_is_built.
 
-(* the yield during which the platform raises the flag is the last step: the
-   node being entered is not evaluated, no effect is added *)
-Theorem C14_raise_ends_evaluation : forall s k,
-  st_stopped s = false -> st_stop_at s = Some k -> st_yields s = k -> st_check_after_yield s = true ->
-  exists s', tick s = (Er EStopped, s') /\ st_stopped s' = true /\ st_trace s' = st_trace s /\ st_yields s' = S k.
-Proof. exact tick_raise. Qed.
-Print Assumptions C14_raise_ends_evaluation.
+(* independence of the stop fields for every primitive except tick *)
+Theorem C14_primitives_stop_independent :
+  (forall e, atom (emitE e)) /\ (forall v, atom (alloc v)) /\ (forall l, atom (load l)) /\
+  (forall l v, atom (store l v)) /\ (forall n e, atom (lookup n e)) /\
+  (forall n l e, atom (set_var n l e)) /\ (forall n l e, atom (update_var n l e)) /\
+  (forall n l, atom (copy_or_ref n l)) /\ (forall n l, atom (deep_copy n l)) /\
+  (forall n r l, atom (show n r l)) /\ (forall n a b, atom (equals n a b)) /\
+  (forall n a b, atom (same n a b)) /\ (forall t, atom (zero_val t)) /\
+  (forall op xs r, atom (bin_arr op xs r)) /\ (forall e b msg, atom (global_err e b msg)) /\
+  (forall args, atom (run_test args)) /\ (forall rg, atom (ranger_next rg)) /\
+  (forall ps args fr, atom (bind_params ps args fr)) /\ (forall ps args fr, atom (bind_payload ps args fr)) /\
+  (forall name e args m, builtin name e args = Some m -> atom m).
+Proof. exact primitives_stop_independent. Qed.
+Print Assumptions C14_primitives_stop_independent.
 
-(* every evaluation step that is not stopped hands control to the yielder once *)
-Theorem C14_every_step_yields : forall s s',
-  tick s = (Ok tt, s') -> st_yields s' = S (st_yields s) /\ st_trace s' = st_trace s.
-Proof. exact tick_ok_yields. Qed.
-Print Assumptions C14_every_step_yields.
+(* trace and yield monotonicity: every evaluator function only extends st_trace and
+   only increases st_yields; it never changes the plan nor the order flag; once the
+   flag is up it stays up and no further yield happens (any plan, either order) *)
+Theorem C14_trace_and_yields_monotone : forall n P,
+  (forall e x, Mono (eval_expr n P e x)) /\
+  (forall e l, Mono (eval_exprs n P e l)) /\
+  (forall e name args, Mono (eval_call n P e name args)) /\
+  (forall e s, Mono (exec_stmt n P e s)) /\
+  (forall e l, Mono (exec_stmts n P e l)) /\
+  (forall e l, Mono (exec_block n P e l)) /\
+  (forall e c body, Mono (exec_cond n P e c body)) /\
+  (forall e c body, Mono (exec_while n P e c body)) /\
+  (forall e var rg body, Mono (exec_for n P e var rg body)).
+Proof. exact mono_all. Qed.
+Print Assumptions C14_trace_and_yields_monotone.
+
+(* ================= 1. stop_is_prefix ================= *)
+
+(* For each of the nine functions [m], every state s0 (flag down, corrected order) and
+   every k: comparing  m (set_stop None s0) = (rI, sI)  with  m (set_stop (Some k) s0) = (rk, sk),
+     EITHER yield number k does not happen (not (st_yields s0 <= k < st_yields sI)) and the
+            runs agree: rk = rI, sk = set_stop (Some k) sI, flag still down,
+     OR     st_yields s0 <= k < st_yields sI, rk = Er EStopped, st_yields sk = S k, the flag is up,
+            and rev (st_trace s0) is a prefix of rev (st_trace sk), which is a prefix of rev (st_trace sI).
+   Same fuel in both runs, so no out-of-fuel caveat: it holds also when rI = Er EOutOfFuel. *)
+Theorem C14_stop_is_prefix : forall n P,
+  (forall e x, StopPrefix (eval_expr n P e x)) /\
+  (forall e l, StopPrefix (eval_exprs n P e l)) /\
+  (forall e name args, StopPrefix (eval_call n P e name args)) /\
+  (forall e s, StopPrefix (exec_stmt n P e s)) /\
+  (forall e l, StopPrefix (exec_stmts n P e l)) /\
+  (forall e l, StopPrefix (exec_block n P e l)) /\
+  (forall e c body, StopPrefix (exec_cond n P e c body)) /\
+  (forall e c body, StopPrefix (exec_while n P e c body)) /\
+  (forall e var rg body, StopPrefix (exec_for n P e var rg body)).
+Proof. exact stop_is_prefix. Qed.
+Print Assumptions C14_stop_is_prefix.
+
+(* the definition of StopPrefix, spelled out for one of them *)
+Theorem C14_stop_is_prefix_stmt : forall n P e x k s0,
+  st_stopped s0 = false -> st_check_after_yield s0 = true ->
+  forall rI sI, exec_stmt n P e x (set_stop None s0) = (rI, sI) ->
+  forall rk sk, exec_stmt n P e x (set_stop (Some k) s0) = (rk, sk) ->
+    (~ (st_yields s0 <= k < st_yields sI) /\
+     rk = rI /\ sk = set_stop (Some k) sI /\ st_stopped sk = false)
+    \/
+    (st_yields s0 <= k < st_yields sI /\
+     rk = Er EStopped /\ st_yields sk = S k /\ st_stopped sk = true /\
+     prefix (rev (st_trace s0)) (rev (st_trace sk)) /\
+     prefix (rev (st_trace sk)) (rev (st_trace sI))).
+Proof. intros n P e x. exact (built_stop_prefix _ _ (built_exec_stmt n P e x)). Qed.
+Print Assumptions C14_stop_is_prefix_stmt.
+
+(* whole program: the effects of the stopped run are a prefix of the effects of the
+   uninterrupted run followed by at most the test summary, and the outcome is "stopped"
+   exactly when the uninterrupted run reaches yield k *)
+Theorem C14_stop_is_prefix_program : forall fuel P k s0,
+  st_stopped s0 = false -> st_check_after_yield s0 = true ->
+  forall oI sI, run_program fuel P (set_stop None s0) = (oI, sI) ->
+  forall ok sk, run_program fuel P (set_stop (Some k) s0) = (ok, sk) ->
+    (~ (st_yields s0 <= k < st_yields sI) /\ ok = oI /\ sk = set_stop (Some k) sI)
+    \/
+    (st_yields s0 <= k < st_yields sI /\ ok = OErr EStopped /\ st_yields sk = S k /\
+     exists pre tail, rev (st_trace sk) = pre ++ tail /\
+                      prefix (rev (st_trace s0)) pre /\ prefix pre (rev (st_trace sI)) /\
+                      summary_tail tail /\ (st_total sk = 0 -> tail = [])).
+Proof. exact run_program_stop_prefix. Qed.
+Print Assumptions C14_stop_is_prefix_program.
+
+Theorem C14_stop_is_prefix_event : forall fuel P name args k s0,
+  st_stopped s0 = false -> st_check_after_yield s0 = true ->
+  forall oI sI, handle_event fuel P name args (set_stop None s0) = (oI, sI) ->
+  forall ok sk, handle_event fuel P name args (set_stop (Some k) s0) = (ok, sk) ->
+    (~ (st_yields s0 <= k < st_yields sI) /\ ok = oI /\ sk = set_stop (Some k) sI)
+    \/
+    (st_yields s0 <= k < st_yields sI /\ ok = OErr EStopped /\ st_yields sk = S k /\ st_stopped sk = true /\
+     prefix (rev (st_trace s0)) (rev (st_trace sk)) /\ prefix (rev (st_trace sk)) (rev (st_trace sI))).
+Proof. exact handle_event_stop_prefix. Qed.
+Print Assumptions C14_stop_is_prefix_event.
+
+(* nothing at all runs once the flag is up: the three functions that model
+   Evaluator.eval return at once with the state untouched ... *)
+Theorem C14_nothing_runs_once_stopped : forall n P e s, st_stopped s = true ->
+  (forall x, eval_expr n P e x s = (Er (stopped_err n), s)) /\
+  (forall x, exec_stmt n P e x s = (Er (stopped_err n), s)) /\
+  (forall l, exec_block n P e l s = (Er (stopped_err n), s)).
+Proof.
+  intros n P e s H.
+  exact (conj (fun x => frozen_eval_expr n P e x s H)
+          (conj (fun x => frozen_exec_stmt n P e x s H) (fun l => frozen_exec_block n P e l s H))).
+Qed.
+Print Assumptions C14_nothing_runs_once_stopped.
+
+(* ... and the helpers that do not tick themselves fail in whatever they evaluate
+   first (empty lists evaluate to empty lists), state untouched *)
+Theorem C14_nothing_runs_once_stopped_helpers : forall n P e s, st_stopped s = true ->
+  (forall l, exists r, eval_exprs n P e l s = (r, s) /\ (forall v, r = Ok v -> l = [] /\ v = [])) /\
+  (forall l, exists r, exec_stmts n P e l s = (r, s) /\ (forall v, r = Ok v -> l = [])) /\
+  (forall c b, exists err, exec_cond n P e c b s = (Er err, s)) /\
+  (forall c b, exists err, exec_while n P e c b s = (Er err, s)) /\
+  (forall name x t, exists err, eval_call n P e name (x :: t) s = (Er err, s)).
+Proof.
+  intros n P e s H.
+  exact (conj (fun l => frozen_eval_exprs n P e l s H)
+        (conj (fun l => frozen_exec_stmts n P e l s H)
+        (conj (fun c b => frozen_exec_cond n P e c b s H)
+        (conj (fun c b => frozen_exec_while n P e c b s H)
+              (fun name x t => frozen_eval_call n P e name x t s H))))).
+Qed.
+Print Assumptions C14_nothing_runs_once_stopped_helpers.
+
+(* exec_for (its ranger may allocate the next element before the body block refuses)
+   and eval_call on an empty argument list: like every Built computation, no yield *)
+Theorem C14_no_yield_once_stopped : forall A (m : M A) s r s',
+  Built m -> st_stopped s = true -> m s = (r, s') -> st_stopped s' = true /\ st_yields s' = st_yields s.
+Proof. exact frozen_built. Qed.
+Print Assumptions C14_no_yield_once_stopped.
+
+(* ================= 2. nothing_after_stop ================= *)
+
+(* (a) on final states, a single run with the flag raised at yield k: when the flag is
+   up at the end the result is "stopped" and yield k was the last yield *)
+Theorem C14_stop_is_immediate : forall A (m : M A), Built m ->
+  forall k s r s', st_stopped s = false -> st_check_after_yield s = true -> st_stop_at s = Some k ->
+  m s = (r, s') ->
+  (st_stopped s' = false /\ ~ (st_yields s <= k < st_yields s'))
+  \/ (st_stopped s' = true /\ r = Er EStopped /\ st_yields s' = S k /\ st_yields s <= k).
+Proof. exact stop_is_immediate. Qed.
+Print Assumptions C14_stop_is_immediate.
+
+(* (b) the node entered while the flag goes up does nothing: final state = entry state
+   + yield count + flag; in particular the trace at the raise is the final trace *)
+Theorem C14_raise_at_entry_freezes : forall n P e s,
+  raise_now s -> st_check_after_yield s = true ->
+  let s' := upd_yield (S (st_yields s)) true s in
+  (forall x, eval_expr (S n) P e x s = (Er EStopped, s')) /\
+  (forall x, exec_stmt (S n) P e x s = (Er EStopped, s')) /\
+  (forall l, exec_block (S n) P e l s = (Er EStopped, s')) /\
+  run_program n P s = (OErr EStopped, test_report s').
+Proof. exact raise_at_entry_freezes. Qed.
+Print Assumptions C14_raise_at_entry_freezes.
+
+(* (c) on the interleaved platform log (Yielder calls, raise marker, effects): every run
+   of an evaluator function has a log [l] that is faithful (its effects are exactly the
+   events appended, its yields exactly the yields counted) and in which the raise, if
+   any, is the LAST entry: no effect and no yield follows it *)
+Theorem C14_nothing_after_stop : forall A (m : M A), Built m ->
+  forall s r s', st_check_after_yield s = true -> st_stopped s = false -> m s = (r, s') ->
+  exists l, Run m s r s' l /\
+    st_trace s' = rev (effects l) ++ st_trace s /\
+    yields_of l = seq (st_yields s) (st_yields s' - st_yields s) /\
+    ((st_stopped s' = false /\ ~ In IRaise l)
+     \/ (st_stopped s' = true /\ r = Er EStopped /\ exists l0, l = l0 ++ [IRaise] /\ ~ In IRaise l0)).
+Proof. exact nothing_after_stop_log. Qed.
+Print Assumptions C14_nothing_after_stop.
+
+(* ... and that holds of EVERY log of the run, not just of one *)
+Theorem C14_nothing_after_stop_every_log : forall A (m : M A) s r s' l, Run m s r s' l ->
+  st_check_after_yield s = true -> st_stopped s = false ->
+  (st_stopped s' = false /\ ~ In IRaise l)
+  \/ (st_stopped s' = true /\ r = Er EStopped /\ exists l0, l = l0 ++ [IRaise] /\ ~ In IRaise l0).
+Proof. exact run_nothing_after_raise. Qed.
+Print Assumptions C14_nothing_after_stop_every_log.
+
+(* the whole program: the platform log of the evaluation [l] (nothing after the raise),
+   then at most the summary of the tests run so far [tail] *)
+Theorem C14_nothing_after_stop_program : forall fuel P s o s2,
+  st_check_after_yield s = true -> st_stopped s = false -> run_program fuel P s = (o, s2) ->
+  exists r s1 l tail,
+    Run (program_m fuel P) s r s1 l /\
+    st_trace s2 = tail ++ rev (effects l) ++ st_trace s /\ summary_tail tail /\
+    yields_of l = seq (st_yields s) (st_yields s2 - st_yields s) /\
+    ((st_stopped s2 = false /\ ~ In IRaise l)
+     \/ (st_stopped s2 = true /\ o = OErr EStopped /\ exists l0, l = l0 ++ [IRaise] /\ ~ In IRaise l0)).
+Proof. exact run_program_nothing_after_stop. Qed.
+Print Assumptions C14_nothing_after_stop_program.
+
+(* the OLD order of the stop test (flag tested only before the yield) *)
+Theorem C14_raise_at_entry_freezes_refuted_old :
+  exists n P e x s, raise_now s /\ st_check_after_yield s = false /\
+    exists r s', exec_stmt (S n) P e x s = (r, s') /\ st_trace s' = EvCls :: st_trace s.
+Proof. exact raise_at_entry_freezes_refuted_old. Qed.
+Print Assumptions C14_raise_at_entry_freezes_refuted_old.
+
+Theorem C14_stop_one_more_effect_refuted_old :
+  exists fuel P k,
+    let s_old := snd (run_program fuel P (init_state (Some k) [] false false)) in
+    let s_new := snd (run_program fuel P (init_state (Some k) [] false true)) in
+    st_stopped s_old = true /\ st_yields s_old = S k /\
+    st_stopped s_new = true /\ st_yields s_new = S k /\
+    st_trace s_new = [] /\
+    st_trace s_old = [EvPrint [PStr (s_ "1"); PStr [10%N]]].
+Proof. exact stop_one_more_effect_refuted_old. Qed.
+Print Assumptions C14_stop_one_more_effect_refuted_old.
+
+Theorem C14_stopped_result_refuted_old :
+  exists fuel P k s, run_program fuel P (init_state (Some k) [] false false) = (ODone, s) /\
+                     st_stopped s = true /\ st_yields s = S k.
+Proof. exact stopped_result_refuted_old. Qed.
+Print Assumptions C14_stopped_result_refuted_old.
+
+(* ================= 3. yield_every_iteration_and_call ================= *)
+
+(* a block yields before its first statement (any plan, either order) *)
+Theorem C14_block_yields_first : forall f P e body s,
+  exec_block (S f) P e body s =
+  if st_stopped s then (Er EStopped, s)
+  else
+    let raised := match st_stop_at s with Some k => Nat.eqb k (st_yields s) | None => false end in
+    let s1 := upd_yield (S (st_yields s)) raised s in
+    if raised && st_check_after_yield s then (Er EStopped, s1) else exec_stmts f P e body s1.
+Proof. exact exec_block_yields_first. Qed.
+Print Assumptions C14_block_yields_first.
+
+(* every completed expression, statement, block yielded at least once *)
+Theorem C14_completed_node_yields : forall n P e s,
+  (forall x a s', eval_expr n P e x s = (Ok a, s') -> S (st_yields s) <= st_yields s') /\
+  (forall x a s', exec_stmt n P e x s = (Ok a, s') -> S (st_yields s) <= st_yields s') /\
+  (forall body a s', exec_block n P e body s = (Ok a, s') -> S (st_yields s) <= st_yields s').
+Proof.
+  intros n P e s.
+  exact (conj (fun x a s' => eval_expr_yields n P e x s a s')
+        (conj (fun x a s' => exec_stmt_yields n P e x s a s')
+              (fun b a s' => exec_block_yields n P e b s a s'))).
+Qed.
+Print Assumptions C14_completed_node_yields.
+
+(* one more iteration of a while loop costs at least two yields *)
+Theorem C14_while_iteration_yields : forall f P e c body s e1 s1,
+  exec_cond f P e c body s = (Ok (Some SigNone, e1), s1) ->
+  exec_while (S f) P e c body s = exec_while f P e1 c body s1 /\ st_yields s + 2 <= st_yields s1.
+Proof. exact while_iteration_yields. Qed.
+Print Assumptions C14_while_iteration_yields.
+
+(* one more iteration of a for loop costs at least one yield *)
+Theorem C14_for_iteration_yields : forall f P e var rg body s l rg' s1 e1 s2 e2 s3,
+  ranger_next rg s = (Ok (Some (l, rg')), s1) ->
+  update_var var l e s1 = (Ok e1, s2) ->
+  exec_block f P e1 body s2 = (Ok (SigNone, e2), s3) ->
+  exec_for (S f) P e var rg body s = exec_for f P e2 var rg' body s3 /\ S (st_yields s) <= st_yields s3.
+Proof. exact for_iteration_yields. Qed.
+Print Assumptions C14_for_iteration_yields.
+
+(* [ranger_next] is the model's ranger.next: exec_for is literally this loop over it *)
+Theorem C14_for_unfold : forall f P e var rg body,
+  exec_for (S f) P e var rg body =
+  (let* nx := ranger_next rg in
+   match nx with
+   | None => ret (SigNone, e)
+   | Some (l, rg') =>
+       let* e1 := update_var var l e in
+       let* (sig, e2) := exec_block f P e1 body in
+       match sig with
+       | SigBreak => ret (SigNone, e2)
+       | SigReturn v => ret (SigReturn v, e2)
+       | SigNone => exec_for f P e2 var rg' body
+       end
+   end).
+Proof. exact exec_for_unfold. Qed.
+Print Assumptions C14_for_unfold.
+
+(* a completed call of a user-defined function costs at least one yield *)
+Theorem C14_call_yields : forall n P e name args s r s',
+  str_eqb name n_test = false -> (forall vals, builtin name e vals = None) ->
+  eval_call n P e name args s = (Ok r, s') -> S (st_yields s) <= st_yields s'.
+Proof. exact call_yields. Qed.
+Print Assumptions C14_call_yields.
+
+(* a completed event handler costs at least one yield *)
+Theorem C14_handle_event_yields : forall fuel P name args s s',
+  handle_event fuel P name args s = (ODone, s') -> S (st_yields s) <= st_yields s'.
+Proof. exact handle_event_yields. Qed.
+Print Assumptions C14_handle_event_yields.
+
+(* the endless loop `while true` (empty body): with fuel n it performs exactly
+   2*(n-2) yields before the model's fuel is exhausted; the whole program 2*n-6 *)
+Theorem C14_endless_while_yields : forall n P e s, machinery_off s ->
+  exists s', exec_while n P e (EBool true) [] s = (Er EOutOfFuel, s') /\
+             st_yields s' = st_yields s + 2 * (n - 2).
+Proof. exact endless_while_yields. Qed.
+Print Assumptions C14_endless_while_yields.
+
+Theorem C14_endless_run_yields : forall n s, machinery_off s -> 4 <= n ->
+  exists s', run_program n endless_program s = (OErr EOutOfFuel, s') /\
+             st_yields s' = st_yields s + 2 * n - 6.
+Proof. exact endless_run_yields. Qed.
+Print Assumptions C14_endless_run_yields.
+
+(* ... so the endless program can be stopped at any yield whatsoever *)
+Theorem C14_endless_is_interruptible : forall k n ff,
+  k + 7 <= 2 * n ->
+  exists s, run_program n endless_program (init_state (Some k) [] ff true) = (OErr EStopped, s) /\
+            st_yields s = S k.
+Proof. exact endless_is_interruptible. Qed.
+Print Assumptions C14_endless_is_interruptible.
+
+(* ================= Examples ================= *)
+(* the program [demo] (defined in SemStop.v):
+   func f n:num { print n }
+   for i := range 2 { for j := range 2 { f i+j } }
+   print "done" *)
+
+(* the hypotheses of stop_is_prefix hold of the initial state, and set_stop gives the two runs *)
+Example C14_ex_hyps : forall k,
+  st_stopped (init_state k [] false true) = false /\
+  st_check_after_yield (init_state k [] false true) = true /\
+  set_stop None (init_state k [] false true) = init_state None [] false true /\
+  set_stop (Some 20) (init_state k [] false true) = init_state (Some 20) [] false true.
+Proof. intro k. repeat split. Qed.
+
+(* the uninterrupted run: 49 yields, five prints *)
+Example C14_ex_uninterrupted :
+  fst (demo_run None) = ODone /\ st_yields (snd (demo_run None)) = 49 /\
+  List.length (st_trace (snd (demo_run None))) = 5.
+Proof. vm_compute. repeat split. Qed.
+
+(* second branch: flag raised at yield 20, in the middle of the nested loops *)
+Example C14_ex_raised :
+  fst (demo_run (Some 20)) = OErr EStopped /\
+  st_yields (snd (demo_run (Some 20))) = 21 /\
+  rev (st_trace (snd (demo_run (Some 20)))) = firstn 1 (rev (st_trace (snd (demo_run None)))) /\
+  rev (st_trace (snd (demo_run (Some 20)))) = [EvPrint [PStr (s_ "0"); PStr [10%N]]].
+Proof. vm_compute. repeat split. Qed.
+
+(* first branch: the run has only 49 yields, so yield 60 never happens: identical runs *)
+Example C14_ex_never_raised :
+  demo_run (Some 60) = (fst (demo_run None), set_stop (Some 60) (snd (demo_run None))).
+Proof. vm_compute. reflexivity. Qed.
+
+(* all 49 stop points at once (exhaustive for this program): stopped at yield k, exactly
+   k+1 yields, and the stopped trace is the corresponding prefix of the full one *)
+Example C14_ex_every_k :
+  Forall (fun k =>
+            let sk := snd (demo_run (Some k)) in
+            let sI := snd (demo_run None) in
+            fst (demo_run (Some k)) = OErr EStopped /\ st_yields sk = S k /\
+            rev (st_trace sk) = firstn (List.length (st_trace sk)) (rev (st_trace sI)))
+         (seq 0 49).
+Proof.
+  cbv [seq]. repeat (apply Forall_cons; [vm_compute; repeat split; reflexivity|]). apply Forall_nil.
+Qed.
+
+(* the summary of the tests run so far may follow the prefix:  test true / print 1,
+   stopped at the last yield: the prefix is empty, the tail is the summary *)
+Example C14_ex_summary_tail :
+  let sI := snd (run_program 100 tests_prog (init_state None [] false true)) in
+  let sk := snd (run_program 100 tests_prog (init_state (Some 5) [] false true)) in
+  st_yields sI = 6 /\ List.length (st_trace sI) = 2 /\
+  fst (run_program 100 tests_prog (init_state (Some 5) [] false true)) = OErr EStopped /\
+  exists txt, st_trace sk = [EvPrint [PStr txt]] /\ st_trace sI = [EvPrint [PStr txt]; EvPrint [PStr (s_ "1"); PStr [10%N]]].
+Proof. vm_compute. repeat split. eexists. split; reflexivity. Qed.
+
+(* an event handler, stopped at its third yield *)
+Example C14_ex_event :
+  let run k := handle_event 20 ev_prog (s_ "key") [PvStr (s_ "a")] (init_state k [] false true) in
+  fst (run None) = ODone /\ st_yields (snd (run None)) = 3 /\ List.length (st_trace (snd (run None))) = 1 /\
+  fst (run (Some 2)) = OErr EStopped /\ st_trace (snd (run (Some 2))) = [].
+Proof. vm_compute. repeat split. Qed.
+
+(* hypotheses of the iteration / call theorems are satisfiable *)
+Example C14_ex_while_iteration :
+  exists s1, exec_cond 5 demo [] (EBool true) [] (init_state None [] false true) = (Ok (Some SigNone, []), s1).
+Proof. eexists. vm_compute. reflexivity. Qed.
+
+Example C14_ex_for_iteration :
+  let s := init_state None [] false true in
+  exists l rg' s1 s3,
+    ranger_next ex_ranger s = (Ok (Some (l, rg')), s1) /\
+    update_var underscore l [] s1 = (Ok [], s1) /\
+    exec_block 3 demo [] [] s1 = (Ok (SigNone, []), s3).
+Proof. do 4 eexists. split; [vm_compute; reflexivity|]. split; vm_compute; reflexivity. Qed.
+
+Example C14_ex_call :
+  str_eqb (s_ "f") n_test = false /\ (forall e vals, builtin (s_ "f") e vals = None) /\
+  exists r s', eval_call 20 demo [] (s_ "f") [ex_seven] (init_state None [] false true) = (Ok r, s') /\
+               st_yields s' = 4.
+Proof.
+  split; [reflexivity|]. split; [intros; reflexivity|].
+  do 2 eexists. split; vm_compute; reflexivity.
+Qed.
+
+Example C14_ex_raise_now : raise_now (init_state (Some 0) [] false true).
+Proof. split; reflexivity. Qed.
+
+Example C14_ex_endless :
+  machinery_off (init_state None [] false true) /\
+  exists s, run_program 10 endless_program (init_state None [] false true) = (OErr EOutOfFuel, s) /\
+            st_yields s = 14.
+Proof. split; [split; reflexivity|]. eexists. split; vm_compute; reflexivity. Qed.
+
+(* eval_call alone is not an eval node (documented exception of "nothing runs once stopped") *)
+Example C14_ex_eval_call_alone :
+  exists s r s', st_stopped s = true /\
+    eval_call 2 empty_program [] (s_ "cls") [] s = (r, s') /\ st_trace s' = EvCls :: st_trace s.
+Proof. exact eval_call_alone_not_frozen. Qed.
